@@ -246,3 +246,12 @@ def run(ctx):
     for inst in ctx.rules[-1].instances:
         inst["rule"] = "C05-R6"
         inst["key"] = inst["key"].replace("C06-R2|", "C05-R6|", 1)
+    # shared with C08-R5: the ancestor the merge starts from is found by paging through the
+    # server's proofs; a page that proves the wrong leaves makes the merge start too early
+    # (events applied twice) or gives up with a hard conflict (events force-merged away)
+    from . import c08
+    c08.r5_scan_page_depends_on_offset(ctx)
+    ctx.rules[-1].id = "C05-R7"
+    for inst in ctx.rules[-1].instances:
+        inst["rule"] = "C05-R7"
+        inst["key"] = inst["key"].replace("C08-R5|", "C05-R7|", 1)
